@@ -8,7 +8,7 @@
 From Coq Require Import ZArith NArith List Lia.
 From Arsenal Require Import Util Bits Gran Tlsf TlsfGeom TlsfInv1 TlsfStep TlsfProps SizeClass TlsfInv2 TlsfStep2 TlsfProps2 GranInv GranTlsf.
 From Arsenal Require Linear LinearInv LinearAlloc LinearFree LinearStep LinearSwap LinearVisit LinearProps.
-From Arsenal Require VamDev VamBlockList Vam VamInv VamInvMeta VamInvThm VamAcctThm VamBal VamBalThm VamNpThm VamFailProps VamRefused.
+From Arsenal Require VamDev VamBlockList Vam VamInv VamInvMeta VamInvThm VamAcctThm VamBal VamBalThm VamNpThm VamFailProps VamRefused VamDefrag VamDefragThm VamDefragBal VamDefragNp.
 Import ListNotations.
 Open Scope Z_scope.
 
@@ -116,4 +116,24 @@ Theorem C13_allocator_refused_changes_nothing : forall c v G o f v' code calls,
                     VamInvMeta.meta_live (bk_meta b) = nil).
 Proof. intros c v G o f v' code calls Ha. exact (VamRefused.refused_changes_nothing c Ha v G o f v' code calls). Qed.
 Print Assumptions C13_allocator_refused_changes_nothing.
+(* Defragmentation entry points (BeginDefragmentation, BeginDefragPass, EndDefragPass with any decisions, Finish)
+   and ordinary calls while a run is open never panic, with ANY fault oracle.  PARTIAL (named so): for
+   BeginDefragPass the state hypothesis dop_live (the lists of the run are alive, hold TLSF blocks and the run's
+   algorithm is Fast or Full; persistently mapped allocations allow mapping) is assumed, not yet shown to be an
+   invariant of the histories; and the model has no continuation (RStuck) for a BeginDefragPass during which a
+   vkMapMemory of that very call failed (the Go code skips the move and goes on; decided by the vamh fault
+   enumeration). *)
+Theorem C13_allocator_defrag_never_panics_partial : forall c v run G o f v' run' r calls dr,
+  cfg_acct c -> VamDefragBal.reachDB c v run G -> VamDefragThm.dop_ok v run o -> VamDefragBal.dop_bal G run o ->
+  VamDefragNp.dop_live v run o -> Vam.dstep c v run o f = (v', run', r, calls, dr) ->
+  r <> RPanic /\
+  (r = RStuck -> o = DPass /\ exists mem off size code, code <> 0 /\ List.In (CMap mem off size code) calls).
+Proof. intros c v run G o f v' run' r calls dr Ha. exact (VamDefragNp.dstep_never_panics c Ha v run G o f v' run' r calls dr). Qed.
+Print Assumptions C13_allocator_defrag_never_panics_partial.
+
+Theorem C13_allocator_never_panics_during_defrag : forall c v run G o f v' r calls,
+  cfg_acct c -> VamDefragBal.reachDB c v run G -> op_ok v o -> op_dom o -> op_bal G o -> op_live v o ->
+  step c v o f = (v', r, calls) -> r <> RPanic /\ r <> RStuck.
+Proof. intros c v run G o f v' r calls Ha. exact (VamDefragNp.step_never_panics_defrag c Ha v run G o f v' r calls). Qed.
+Print Assumptions C13_allocator_never_panics_during_defrag.
 End Allocator.
